@@ -93,7 +93,7 @@ func Parse(b []byte, opt ParseOptions) (*Parsed, error) {
 			p.Records = append(p.Records, r)
 			p.DefOf = append(p.DefOf, di)
 		case h&0x40 != 0: // definition
-			r := Record{IsDef: true, Local: h & 0x0F, HasDev: h&0x20 != 0}
+			r := Record{IsDef: true, Local: h & 0x0F, HasDev: h&0x20 != 0, HdrBits: h & 0x10}
 			if opt.Strict && h&0x10 != 0 {
 				return nil, fmt.Errorf("ref: reserved bit set in definition header %#x", h)
 			}
@@ -146,7 +146,7 @@ func Parse(b []byte, opt ParseOptions) (*Parsed, error) {
 			if opt.Strict && h&0x30 != 0 {
 				return nil, fmt.Errorf("ref: reserved bits set in data header %#x", h)
 			}
-			r := Record{Local: h & 0x0F}
+			r := Record{Local: h & 0x0F, HdrBits: h & 0x30}
 			di := defs[r.Local]
 			if di < 0 {
 				return nil, fmt.Errorf("ref: data record for undefined local type %d", r.Local)
